@@ -179,7 +179,9 @@ public:
 // model
 // ------------------------------------------------------------------------------------------------------
 enum class OpKind { None, Log, Flush, InitBt, FlushBt, RemoveBlocking, Other };
-enum class SKind { Normal, Backtrace, BadTemplate, BadSpec, Bomb, BtNoInit, MacroStatic, MacroDynamic, Named, NamedBtNoInit, Dynamic };
+enum class SKind { Normal, Backtrace, BadTemplate, BadSpec, Bomb, BtNoInit, MacroStatic, MacroDynamic, Named, NamedBtNoInit, Dynamic, NamedBacktrace };
+
+inline bool is_bt_kind(SKind k) { return k == SKind::Backtrace || k == SKind::NamedBacktrace; }
 
 struct Stmt
 {
